@@ -416,4 +416,59 @@ theorem isMatch_line_iff {body : Re} (hn : body.noLF = true) (hna : body.noTextA
         simpa using this
     exact isMatch_complete hr hM
 
+/-! ## whole-line matches, ASCII literals -/
+
+theorem decodeRune_ascii {s : Bytes} {r w : Nat} (h : decodeRune s = some (r, w)) (hr : r < 128) :
+    ∃ b t, s = b :: t ∧ b.toNat = r ∧ w = 1 := by
+  unfold decodeRune at h
+  split at h
+  · cases h
+  · rename_i b0 t
+    refine ⟨b0, t, rfl, ?_⟩
+    simp only at h
+    repeat' split at h
+    all_goals
+      simp only [Option.some.injEq, Prod.mk.injEq] at h
+      obtain ⟨rfl, rfl⟩ := h
+      first
+      | (exfalso; omega)
+      | (exfalso; simp only [Bool.and_eq_true, decide_eq_true_eq, beq_iff_eq] at *; omega)
+      | exact ⟨rfl, rfl⟩
+
+theorem Matches.lit_ascii {r : Nat} {p q : Pos} (h : Matches (.lit r) p q) (hr : r < 128) :
+    ∃ b, b.toNat = r ∧ p.after = b :: q.after := by
+  cases h with
+  | lit hd =>
+    obtain ⟨b, t, hs, hb, rfl⟩ := decodeRune_ascii hd hr
+    refine ⟨b, hb, ?_⟩
+    rw [Pos.advance_after, hs]; rfl
+
+/-- on a single line (no line feed) a line pattern can only match the whole line -/
+theorem isMatch_line_whole {body : Re} (hn : body.noLF = true) {l : Bytes}
+    (hl : ∀ b ∈ l, b ≠ LF) (h : isMatch (.cat .bol (.cat body .eol)) l = true) :
+    ∃ p q, p.before = [] ∧ p.after = l ∧ q.after = [] ∧ Matches body p q := by
+  obtain ⟨p, q, _, hp, hq, hM⟩ := isMatch_sound h
+  obtain ⟨hbol, heol, _⟩ := hM.line hn
+  have hb : p.before = [] := by
+    rcases (Pos.atBol_iff p).mp hbol with h0 | ⟨t, h0⟩
+    · exact h0
+    · exfalso
+      have : LF ∈ l := by rw [← hp.1, h0]; simp
+      exact hl LF this rfl
+  have ha : p.after = l := by have := hp.1; rw [hb] at this; simpa using this
+  have hqa : q.after = [] := by
+    rcases (Pos.atEol_iff q).mp heol with h0 | ⟨t, h0⟩
+    · exact h0
+    · exfalso
+      have : LF ∈ l := by rw [← hq.1, h0]; simp
+      exact hl LF this rfl
+  cases hM with
+  | cat h1 h2 =>
+    cases h1 with
+    | bol _ =>
+      cases h2 with
+      | cat h3 h4 =>
+        cases h4 with
+        | eol _ => exact ⟨p, _, hb, ha, hqa, h3⟩
+
 end Scrapli.Rx
